@@ -12,7 +12,7 @@ From ClapModel Require Import Derive.DeriveCmd Derive.DeriveArgs Derive.DerivePa
 From ClapModel Require Import Parse.Validator ParseProofs.Relations ParseProofs.ValidateTotal Derive.DerivePost Derive.DerivePostEx.
 From ClapModel Require Import ParseProofs.Dispatch Derive.LoopInv Derive.DeriveFlat Derive.DeriveTotal Derive.DeriveTotalEx.
 From ClapModel Require Import ParseProofs.KindSound Derive.DeriveUpdateLine Derive.DeriveUpdateLineEx Derive.DeriveDec Derive.DeriveKeys Derive.DerivePos.
-From ClapModel Require Import Derive.DeriveEnum Derive.DeriveEnumField Derive.DeriveEnumEx Derive.DeriveAbsent Derive.DeriveOptBool.
+From ClapModel Require Import Derive.DeriveEnum Derive.DeriveEnumField Derive.DeriveEnumEx Derive.DeriveAbsent Derive.DeriveOptBool Derive.DeriveOptFlatten.
 From Coq Require Import ZArith List.
 Import ListNotations.
 Open Scope N_scope.
@@ -976,3 +976,63 @@ Proof.
   split; [exact OptBoolEx.ex_unnamed|]. split; [exact L2|]. split; [exact L3|]. split; [exact L4|]. split; [exact L5|exact L6].
 Qed.
 Print Assumptions C15_optbool_nonvacuous.
+
+(** * Round 5 (3): [try_update_from] on [#[command(flatten)] x: Option<Inner>] when the value is already [Some]
+      (Derive/DeriveOptFlatten.v).  The two recorded findings (update-default-reset, update-optflatten-materialised: the [None]
+      arm) are unchanged; this is the [Some] arm. *)
+
+(** [gen_updater]'s [Some] arm: the inner struct is updated IN PLACE (the members' own updaters run on the current values) and
+    the flatten stays [Some] -- every body, every matches. *)
+Theorem C15_update_optflatten_some : forall gid body fs m v' m',
+  update_node (NFlatten true gid body) (DOptStruct (Some fs)) m = XOk (v', m') ->
+  exists fs', v' = DOptStruct (Some fs') /\ update_nodes body fs m = XOk (fs', m').
+Proof. exact update_optflatten_some. Qed.
+Print Assumptions C15_update_optflatten_some.
+
+(** matches level, every well-formed derive input: a field reachable in the current value through required flattens and through
+    optional flattens that are [Some] ([field_ato]; [field_at] of round 1 stops at optional flattens) and whose id is not in the
+    matches is still reachable after [update] -- the flattens on the way are still [Some] -- with the same value. *)
+Theorem C15_update_frame_optflatten : forall d vs m vs' i x,
+  wf_nodes (d_nodes d) -> update d vs m = XOk vs' -> m_contains i m = false ->
+  field_ato (d_nodes d) vs i = Some x -> field_ato (d_nodes d) vs' i = Some x.
+Proof. exact update_frame_ato. Qed.
+Print Assumptions C15_update_frame_optflatten.
+
+(** ALL ARGV: for every struct of argument fields and (optional) flattened structs whose update command passes clap's
+    assertions, every line and every leaf field whose argument has no default: if the field is reachable in the current value
+    (every [Option<Inner>] on the way is [Some]) and no token names its argument (C10's [occurs]), then after a successful
+    [try_update_from] it is still reachable and has the same value.  Extends [C15_update_unoccurring_untouched_flat] (whose
+    lookup does not enter optional flattens) to the class of the corpus types F3 / F6. *)
+Theorem C15_update_unoccurring_untouched_opt : forall d bin toks vs vs' f x,
+  flat_nodes (d_nodes d) = true -> wf_nodes (d_nodes d) -> In f (leaves (d_nodes d)) -> bf_default f = [] ->
+  valid (UnparseTree.with_bin (derive_cmd_for_update d) bin) = true ->
+  (forall a, In a (c_args (builtu d bin)) -> a_id a = f_id f -> ~ occurs (builtu d bin) toks a) ->
+  derived_update d vs (bin :: toks) = PValue vs' ->
+  field_ato (d_nodes d) vs (f_id f) = Some x -> field_ato (d_nodes d) vs' (f_id f) = Some x.
+Proof. exact update_unoccurring_untouched_opt. Qed.
+Print Assumptions C15_update_unoccurring_untouched_opt.
+
+(** Non-vacuity: [{ t: Option<String>, #[command(flatten)] opt: Option<Inner { e: Option<u8>, g: Option<u8> }> }], value
+    [{ t: None, opt: Some { e: Some(5), g: Some(6) } }] updated from [prog --ee 9] gives [{ None, Some { Some(9), Some(6) } }]:
+    all hypotheses hold for [g] (round 1's [field_at] does not see it), it keeps 6; the same struct with [opt: None] updated
+    from the empty line is materialised (the recorded finding, [None] arm). *)
+Theorem C15_update_optflatten_nonvacuous :
+  (forall a, In a (c_args (builtu OptFlattenEx.d OptFlattenEx.b_prog)) -> a_id a = f_id OptFlattenEx.fg ->
+             ~ occurs (builtu OptFlattenEx.d OptFlattenEx.b_prog) OptFlattenEx.toks a)
+  /\ wf_nodes (d_nodes OptFlattenEx.d)
+  /\ flat_nodes (d_nodes OptFlattenEx.d) = true /\ In OptFlattenEx.fg (leaves (d_nodes OptFlattenEx.d))
+  /\ bf_default OptFlattenEx.fg = []
+  /\ valid (UnparseTree.with_bin (derive_cmd_for_update OptFlattenEx.d) OptFlattenEx.b_prog) = true
+  /\ derived_update OptFlattenEx.d OptFlattenEx.v0 (OptFlattenEx.b_prog :: OptFlattenEx.toks) = PValue OptFlattenEx.v1
+  /\ field_ato (d_nodes OptFlattenEx.d) OptFlattenEx.v0 (f_id OptFlattenEx.fg) = Some (DOpt (Some (SvInt 6%Z)))
+  /\ field_at (d_nodes OptFlattenEx.d) OptFlattenEx.v0 (f_id OptFlattenEx.fg) = None
+  /\ field_ato (d_nodes OptFlattenEx.d) OptFlattenEx.v1 (f_id OptFlattenEx.fg) = Some (DOpt (Some (SvInt 6%Z)))
+  /\ derived_update OptFlattenEx.d [DOpt None; DOptStruct None] [OptFlattenEx.b_prog]
+       = PValue [DOpt None; DOptStruct (Some [DOpt None; DOpt None])].
+Proof.
+  split; [exact OptFlattenEx.ex_unnamed|]. split; [exact OptFlattenEx.ex_wf|].
+  destruct OptFlattenEx.ex_facts as (H1 & H2 & H3 & H4 & H5 & H6 & H7).
+  split; [exact H1|]. split; [exact H2|]. split; [exact H3|]. split; [exact H4|]. split; [exact H5|]. split; [exact H6|].
+  split; [exact H7|]. split; [exact OptFlattenEx.ex_in_place|exact OptFlattenEx.ex_none_arm].
+Qed.
+Print Assumptions C15_update_optflatten_nonvacuous.
